@@ -36,6 +36,15 @@ def key_layout(ctx):
                 fold['init'] = int(m.group(1))
     if fold['init'] is None:
         raise AnalysisBroken('C15: ID byte fold schedule of createAnswerKey not recognised')
+    if not getattr(ctx, '_c15_len_seen', False):
+        ctx._c15_len_seen = True
+        ctx.rule('C15.R17', 'registered IDs of different length have different keys: createAnswerKey places its ID length parameter '
+                 'into the key (the ID bytes are folded into fixed positions, so without the length a trailing 00 of a '
+                 'registered ID cannot be told from "no further byte": 0d00 would answer 0d2a and 0d, and IDs that differ by '
+                 'trailing zeros replace each other)', minimum=1)
+        has_len = len(pn) > 5 and pn[5] in fields
+        ctx.ob('C15.R17', fn, fn.body, has_len, 'ID length in the answer key',
+               'the length parameter is shifted into the key: %s (fields placed: %s)' % (has_len, sorted(fields)))
     try:
         lay = {
             'len': fields[pn[5]]['shift'],
